@@ -214,7 +214,7 @@ def simplify(case):
 
 
 def run_shard(ctx):
-    ctx.drive("direct", direct_cases(ctx.tier), check_case, ctx.budget(24000, 300000))
+    ctx.drive("direct", direct_cases(ctx.tier), check_case, ctx.budget(24000, 200000))
     names = ["T_HOO", "HCT", "VHCT", "DOO", "SOO", "StoSOO", "SequOOL", "StroquOOL", "Zooming", "VROOM", "PCT"]
     ctx.drive("algos", gen.run_case(names=names, T_max=120, extreme=True, poo_ok_only=True, gpo_ok_only=True,
                                     binary_children_only=False),
